@@ -52,6 +52,7 @@ type c19 struct {
 
 	maxSteps, steps   int
 	bigSet            bool
+	offerBuf          []coinset.Coin
 	hugeSet           bool
 	mutated, selected bool
 }
@@ -461,7 +462,14 @@ func (s *c19) checkSelect(which int, target int64, maxIn int, minChange, minVA i
 	if which < 0 || which > 3 || target < 1 || minChange < 0 || minVA < 0 {
 		return nil
 	}
-	offered := s.set.Coins()
+	// the offered list lives in ONE caller-owned buffer that is overwritten in
+	// place from call to call (what a wallet does with its candidate list):
+	// a selector that remembers a list by its address must not be fooled
+	cur := s.set.Coins()
+	if cap(s.offerBuf) < 64 {
+		s.offerBuf = make([]coinset.Coin, 0, 64)
+	}
+	offered := append(s.offerBuf[:0], cur...)
 	before := append([]coinset.Coin(nil), offered...)
 	var sel coinset.CoinSelector
 	switch which {
